@@ -92,7 +92,8 @@ theorem core3_result_is_closed_in (ge : Core3.GEnv) (f g : Core3.Func) (h : Core
       (Core3.defs (Core3.fill f l)).Nodup ∧ (∀ u ∈ Core3.uses (Core3.fill f l), u ∈ Core3.defs (Core3.fill f l)) ∧
       (∀ u ∈ Core3.labUses (Core3.fill f l), u ∈ Core3.blockDefs (Core3.fill f l)) ∧
       (∀ n ∈ Core3.globUses (Core3.fill f l), n ∈ ge.map (·.1)) := by
-  unfold Core3.translateIn at h
+  have h := (Core3.translateIn_core _ _ _ h).1
+  unfold Core3.translateCore at h
   split at h
   · cases h
   · rename_i l hl
@@ -114,7 +115,8 @@ theorem core3_result_is_closed_in (ge : Core3.GEnv) (f g : Core3.Func) (h : Core
     the scope named by a catchpad the result of a catchswitch (a local of another kind in such a place is an error, not a silent binding) -/
 theorem core3_pad_kinds (ge : Core3.GEnv) (f g : Core3.Func) (h : Core3.translateIn ge f = some g) :
     ∃ l, Numbering.parseAssign (Core3.slotsOf f) = .ok l ∧ Core3.padsOK (Core3.fill f l) = true := by
-  unfold Core3.translateIn at h
+  have h := (Core3.translateIn_core _ _ _ h).1
+  unfold Core3.translateCore at h
   split at h
   · cases h
   · rename_i l hl
@@ -138,14 +140,16 @@ theorem core3_result_is_closed (f g : Core3.Func) (h : Core3.translate f = some 
 /-- a duplicated definition (after numbering) is an error -/
 theorem core3_duplicate_is_error (ge : Core3.GEnv) (f : Core3.Func) (l : List Numbering.Slot) (hl : Numbering.parseAssign (Core3.slotsOf f) = .ok l)
     (h : Core3.hasDupI (Core3.defs (Core3.fill f l)) = true) : Core3.translateIn ge f = none := by
-  simp [Core3.translateIn, hl, h]
+  apply Core3.translateIn_none_of_core
+  simp [Core3.translateCore, hl, h]
 
 /-- a use of an identifier the function does not define is an error -/
 theorem core3_undefined_is_error (ge : Core3.GEnv) (f : Core3.Func) (l : List Numbering.Slot) (hl : Numbering.parseAssign (Core3.slotsOf f) = .ok l)
     (u : Core3.Ident) (hu : u ∈ Core3.uses (Core3.fill f l)) (hd : u ∉ Core3.defs (Core3.fill f l)) : Core3.translateIn ge f = none := by
   have : ((Core3.uses (Core3.fill f l)).all fun u => (Core3.defs (Core3.fill f l)).contains u) = false := by
     rw [List.all_eq_false]; exact ⟨u, hu, by simpa using hd⟩
-  simp only [Core3.translateIn, hl, this, Bool.false_and, Bool.false_eq_true, if_false]
+  apply Core3.translateIn_none_of_core
+  simp only [Core3.translateCore, hl, this, Bool.false_and, Bool.false_eq_true, if_false]
   split <;> rfl
 
 /-- a use of a global the module does not define is an error -/
@@ -154,7 +158,8 @@ theorem core3_undefined_global_is_error (ge : Core3.GEnv) (f : Core3.Func) (l : 
     (n : Bytes) (hu : n ∈ Core3.globUses (Core3.fill f l)) (hd : n ∉ ge.map (·.1)) : Core3.translateIn ge f = none := by
   have : ((Core3.globUses (Core3.fill f l)).all fun n => (ge.map (·.1)).contains n) = false := by
     rw [List.all_eq_false]; exact ⟨n, hu, by simpa using hd⟩
-  simp only [Core3.translateIn, hl, this, Bool.and_false, Bool.false_and, Bool.false_eq_true, if_false]
+  apply Core3.translateIn_none_of_core
+  simp only [Core3.translateCore, hl, this, Bool.and_false, Bool.false_and, Bool.false_eq_true, if_false]
   split <;> rfl
 
 /-- in particular: a function definition on its own that mentions any global but itself is an error -/
@@ -168,6 +173,16 @@ theorem core3_standalone_global_is_error (f : Core3.Func) (l : List Numbering.Sl
 /-- a numbering LLVM rejects is an error -/
 theorem core3_bad_numbering_is_error (ge : Core3.GEnv) (f : Core3.Func) (h : Numbering.parseAssign (Core3.slotsOf f) = .error) :
     Core3.translateIn ge f = none := by
-  simp [Core3.translateIn, h]
+  apply Core3.translateIn_none_of_core
+  simp [Core3.translateCore, h]
+
+/-- **the keywords of a function header** (linkage, preemption, visibility, DLL storage class, calling convention): in every accepted function at most one
+    keyword of each family occurs, and the families stand in the order the grammar fixes — a repeated or misplaced keyword is an error, not silently kept or
+    dropped -/
+theorem core3_header_keywords_checked (ge : Core3.GEnv) (f g : Core3.Func) (h : Core3.translateIn ge f = some g) : Core3.leadOK f.lead = true :=
+  (Core3.translateIn_core ge f g h).2
+
+/-- `internal internal`, `dso_local internal`, `internal private` are rejected; `internal dso_local hidden dllexport fastcc` is accepted -/
+example : Core3.leadOK [3, 3] = false ∧ Core3.leadOK [11, 3] = false ∧ Core3.leadOK [3, 6] = false ∧ Core3.leadOK [3, 11, 14, 16, 19] = true := by decide
 
 end Llir.Props.C05
